@@ -372,6 +372,12 @@ theorem invF_run {s s' : St} (h : InvF s) (t : Tid) (hs : stepRun s t = some s')
     simp only [doS2]
     split
     · frame_keep h t hpc setLoc_loc_self
+    · frame_keep_ite h t hpc setLoc_loc_self
+  case s2f => cases hs; frame_drop h t hpc
+  case q1 =>
+    cases hs
+    split
+    · frame_keep h t hpc setLoc_loc_self
     · frame_keep h t hpc setLoc_loc_self
   case s2w => cases hs; frame_keep h t hpc doS2w
   case zz =>
@@ -494,6 +500,13 @@ theorem invF_step {s s' : St} (a : Actor) (h : InvF s) (hs : step s a = some s')
       simp [doCall, hc.1, PC.holding]
     · cases hs
   | bg t =>
+    simp only [step] at hs
+    split at hs
+    · rename_i hc
+      have hpc := hc.1
+      cases hs; frame_keep h t hpc setLoc_loc_self
+    · cases hs
+  | pollAll t d =>
     simp only [step] at hs
     split at hs
     · rename_i hc
